@@ -466,7 +466,7 @@ def check_server(ctx, case):
 
 
 def part_server(ctx):
-    n = 150 if ctx.tier == "quick" else 5000
+    n = 500 if ctx.tier == "quick" else 5000
     hyp_run(ctx, SRV_CASE, lambda c: check_server(ctx, c), n, name="server")
 
 
@@ -576,7 +576,7 @@ def check_dots(ctx, case):
 
 
 def part_dots(ctx):
-    n = 40 if ctx.tier == "quick" else 1000
+    n = 120 if ctx.tier == "quick" else 1000
     hyp_run(ctx, st.tuples(TREES, st.sampled_from(["mlsd", "list"])), lambda c: check_dots(ctx, c), n, name="dots")
 
 
@@ -682,7 +682,7 @@ def check_client(ctx, case):
 
 
 def part_client(ctx):
-    n = 100 if ctx.tier == "quick" else 3000
+    n = 300 if ctx.tier == "quick" else 3000
     hyp_run(ctx, CLI_CASE, lambda c: check_client(ctx, c), n, name="client")
 
 
